@@ -345,8 +345,8 @@ def verdict(mod, cid, tier, seed, m, dead, wall):
             path = os.path.join(VERIF, 'replays', '%s-%s-%d-%d.json' % (cid, tier, seed, n))
             with open(path, 'w') as f:
                 json.dump({'property': cid, 'tier': tier, 'seed': seed, **v}, f, indent=1, default=str)
-            sig = (v['finding'], v['what'])
-            if sig in seen and n >= 10:
+            sig = (v['finding'], ''.join(ch for ch in v['what'] if not ch.isdigit()))
+            if (sig in seen and n >= 6) or len(seen) >= 25:
                 continue
             seen.add(sig)
             print('VIOLATION property=%s replay=%s' % (cid, path))
